@@ -23,10 +23,14 @@ TRUSTED = [
     'not modelled here: genshi/path.py — SelectTransformation is modelled as a function of the per-event results of Path.test(), '
     'which the harness records from the real code and sends along (the XPath model and its theorems are C05/C17); '
     'the oracle uses its own tree evaluator for the generated path subset',
-    'only exercised (nesting in -> out on the real code): HTMLSanitizer (theorems: C06), Translator (C19), EmptyTagFilter / '
-    'WhitespaceFilter / NamespaceFlattener / DocTypeInserter (C09/C08/C02)',
-    'lazy generator interleaving of a chain is modelled as stage-wise composition; a buffer injected before a buffer() '
-    'barrier separates it from its copy()/cut() is answered `unmodelled` and only checked by the oracle',
+    'models owned by other properties (tied there), well-nestedness stated in Props/C20.lean, nesting in -> out checked by the '
+    'oracle on the real code: HTMLSanitizer (C06), Translator (C19), EmptyTagFilter / WhitespaceFilter / NamespaceFlattener '
+    '(full on the total model of C02; partial on the chain model of C08) / DocTypeInserter (C09/C08/C02)',
+    'the push formulation of the pulled generator pipeline (Model/TfLazy.lean pushItem: an item yielded by link k is processed '
+    'by link k+1 before k continues); the stage-wise composition (lazy_agrees_stagewise) and the link-by-link trace semantics '
+    '(lazy_trace_semantics) are theorems about it, and the driver compares all three on every generated chain',
+    'callable injector content is driven with callables returning a constant; stateful callables, Elements containing a '
+    'StreamBuffer, map(f, kind) for kinds other than TEXT/None are not modelled (notes/C20.md, audit table)',
 ]
 ASSUMPTIONS = [
     'input streams are well nested; content injected by replace/before/after/prepend/append is well nested',
@@ -50,7 +54,31 @@ def _content(c, bufs):
         return Stream(G.to_genshi(G.flatten(c[1])))
     if c[0] == 'buf':
         return bufs[c[1]]
+    if c[0] == 'fn':
+        # a callable: InjectorTransformation._inject() calls it at every injection.  It returns the same
+        # content at every call (a callable with state, i.e. different content per call, is not modelled)
+        inner = _content(c[1], bufs)
+        return lambda: inner
+    if c[0] == 'el':
+        # a builder Element (itself callable: _inject() calls it without arguments and gets the element back)
+        from genshi.builder import Element
+        return Element(c[1])(Stream(G.to_genshi(G.flatten(c[2]))))
     raise ValueError(c)
+
+
+def _attrfn(src):
+    """the callable of an `attrfn` operation: value(name, event) (see gen_tf.attrfn_value)"""
+    if isinstance(src, str):
+        return lambda name_, ev: ev[1][1].get(src)
+    if src[0] == 'tag':
+        return lambda name_, ev: ev[1][0].localname
+    if src[0] == 'const':
+        return lambda name_, ev: src[1]
+    if src[0] == 'name':
+        return lambda name_, ev: name_
+    if src[0] == 'count':
+        return lambda name_, ev: str(len(ev[1][1]))
+    raise ValueError(src)
 
 
 def _dropc(stream):
@@ -72,9 +100,27 @@ def _ident(stream):
 MAPTEXT = {'rev': lambda d: d[::-1], 'dup': lambda d: d + d}
 
 
-def rec_path_class(rec):
+def _user_bang(stream):
+    """a user-written transformation for Transformer.apply(function), after the example in its docstring: a
+    generator over the MARKED stream that changes the selected TEXT events (model: the same as map(_bang, TEXT))"""
+    from genshi.core import TEXT
+    for mark, (kind, data, pos) in stream:
+        if mark and kind is TEXT:
+            yield mark, (kind, data + '!', pos)
+        else:
+            yield mark, (kind, data, pos)
+
+
+USERFN = {'bang': _user_bang}
+
+
+def rec_path_class(rec, cur=None):
     """a Path subclass that records, per select link (keyed by its index in the chain), the list of
-    Path.test() results into `rec`"""
+    Path.test() results into `rec`.
+    `cur` (derivation trees): a one-element list holding the position, in the chain being run, of the
+    select link whose generator is starting (set by `PosLink`); the record is then keyed by that position
+    instead of the index given at construction -- the same SelectTransformation object sits in the chains
+    of several transformer objects, and after apply(Transformer) several times in one chain."""
     from genshi.path import Path
 
     class RecPath(Path):
@@ -83,7 +129,13 @@ def rec_path_class(rec):
         def test(self, ignore_context=False):
             # generators start lazily (the last link first): key the record by the op index
             inner = Path.test(self, ignore_context)
-            mine = rec.setdefault(self.idx, [])
+            if cur is None:
+                key = self.idx
+            else:
+                key, cur[0] = cur[0], None
+                if key is None:
+                    key = 'stray'       # a call of Path.test() that no select link of the chain made
+            mine = rec.setdefault(key, [])
             del mine[:]
 
             def _t(event, namespaces, variables, updateonly=False):
@@ -92,7 +144,7 @@ def rec_path_class(rec):
                 except Exception:
                     # path.py itself fails (its stack runs empty on an ill-nested stream): recorded
                     # as a fact about this select, the model answers `err` for it
-                    rec[('raised', self.idx)] = True
+                    rec[('raised', key)] = True
                     raise
                 if not updateonly:
                     mine.append((event, r))
@@ -115,9 +167,15 @@ def apply_op(t, i, op, bufs, RecPath):
 
     name = op[0]
     if name == 'select':
-        p = RecPath(G.path_str(op[1]))
-        p.idx = i
+        if RecPath is None:
+            p = G.path_str(op[1])           # the path as a string: SelectTransformation makes the Path itself
+        else:
+            p = RecPath(G.path_str(op[1]))  # ... or a Path instance (here: one that records)
+            p.idx = i
         return Transformer(p) if t is None else t.select(p)
+    if name == 'apply':
+        fn = USERFN[op[1]]                  # a user-supplied callable on the marked stream (a new function
+        return t.apply(lambda stream: fn(stream))       # object per derivation: links are told apart by identity)
     if name in ('replace', 'before', 'after', 'prepend', 'append'):
         return getattr(t, name)(_content(op[1], bufs))
     if name == 'wrap':
@@ -128,7 +186,7 @@ def apply_op(t, i, op, bufs, RecPath):
         from genshi.core import Stream as _S
         return t.wrap(Element(op[1], **dict((k, v) for k, v in op[2]))(_S(G.to_genshi(G.flatten(op[3])))))
     if name == 'attrfn':
-        return t.attr(op[1], (lambda src: lambda name_, ev: ev[1][1].get(src))(op[2]))
+        return t.attr(op[1], _attrfn(op[2]))
     if name == 'rename':
         return t.rename(op[1])
     if name == 'attr':
@@ -155,9 +213,10 @@ def apply_op(t, i, op, bufs, RecPath):
     raise ValueError(op)
 
 
-def build_chain(ops, rec):
-    """ops -> (Transformer, buffers). rec collects, per select, the list of Path.test() results"""
-    RecPath = rec_path_class(rec)
+def build_chain(ops, rec, plain=False):
+    """ops -> (Transformer, buffers). rec collects, per select, the list of Path.test() results
+    (plain: nothing is recorded, the paths are handed over as strings)"""
+    RecPath = None if plain else rec_path_class(rec)
     bufs = {}
     t = None
     for i, op in enumerate(ops):
@@ -197,20 +256,24 @@ def jmark(m):
     return None if m is None else str(m)
 
 
-def run_real(doc, ops):
+def run_real(doc, ops, plain=False):
     """-> dict(status 'ok'|'err', marked [[mark, event]...], err, bufs {id: events}, rec [[result...]...])"""
     rec = {}
-    t, bufs = build_chain(ops, rec)       # a malformed case raises here: not an outcome of the code under test
+    t, bufs = build_chain(ops, rec, plain)       # a malformed case raises here: not an outcome of the code under test
     return run_transformer(doc, t, bufs, rec)
 
 
 def run_transformer(doc, t, bufs, rec):
-    out = {'status': 'ok', 'marked': [], 'err': None, 'bufs': {}, 'rec': rec}
+    out = {'status': 'ok', 'marked': [], 'err': None, 'bufs': {}, 'rec': rec, 'plain': None}
     events = G.to_genshi(G.flatten(doc))
+    raw = []
     try:
         with Watchdog():
             for mark, ev in t(events, keep_marks=True):
+                raw.append((mark, ev))
                 out['marked'].append([jmark(mark), G.from_genshi_event(ev)])
+            # the output without marks: the real Transformer._unmark on the marked output
+            out['plain'] = G.from_genshi(list(t._unmark(iter(raw))))
     except Exception as e:  # noqa
         out['status'] = 'err'
         out['err'] = type(e).__name__
@@ -224,6 +287,22 @@ def run_transformer(doc, t, bufs, rec):
     for i, b in sorted((i, b) for i, b in bufs.items() if i != 'trace'):
         out['bufs'][i] = G.from_genshi(list(b))
     out['trace'] = [len(log.getvalue().splitlines()) for log in bufs.get('trace', [])]
+    if out['status'] == 'ok' and 'trace' not in bufs and len(raw) % 3 == 0:
+        # one run in three: Transformer.__call__(stream) as users call it (keep_marks=False), a second run
+        # of the same object; the records of the first run are kept
+        keep = dict((k, list(v) if isinstance(v, list) else v) for k, v in rec.items())
+        for b in bufs.values():
+            b.reset()                     # "care must be taken ... that buffers are cleared between transforms"
+        try:
+            with Watchdog():
+                out['plain'] = G.from_genshi(list(t(events)))
+            out['plain-by'] = 'call'
+        except Exception as e:  # noqa
+            out['plain'] = 'err: ' + type(e).__name__
+        except NoTermination:
+            out['plain'] = 'err: NoTermination'
+        rec.clear()
+        rec.update(keep)
     return out
 
 
@@ -234,23 +313,56 @@ OPCLASS = {'select': 'SelectTransformation', 'remove': 'RemoveTransformation', '
            'prepend': 'PrependTransformation', 'append': 'AppendTransformation', 'rename': 'RenameTransformation',
            'attr': 'AttrTransformation', 'attrfn': 'AttrTransformation', 'copy': 'CopyTransformation',
            'cut': 'CutTransformation', 'map': 'MapTransformation', 'substitute': 'SubstituteTransformation',
-           'filter': 'FilterTransformation', 'trace': 'TraceTransformation', 'maptext': 'MapTransformation'}
+           'filter': 'FilterTransformation', 'trace': 'TraceTransformation', 'maptext': 'MapTransformation',
+           'apply': 'function'}
+
+
+class PosLink(object):
+    """stands, for ONE run, for the select link at position `i` of the chain being run.  A pass-through:
+    when its generator starts it notes the position, then the link's own generator starts, whose first
+    action is `self.path.test()` (RecPath.test reads the position) -- before it pulls from upstream."""
+
+    def __init__(self, link, i, cur):
+        self.link, self.i, self.cur = link, i, cur
+
+    def __call__(self, stream):
+        self.cur[0] = self.i
+        for item in self.link(stream):
+            yield item
 
 
 def run_tree(case):
     """build the transformer objects of a derivation tree on the real code (derived from each other,
     sharing prefixes), record after every derivation the links of ALL objects built so far, then
     apply the objects named in case['apply'].
-    -> (history: [[[link class names] per object] per derivation], runs: [(node, ops, real)])"""
+    -> (history: [[[link labels] per object] per derivation], runs: [(node, ops, real)])
+    A link is labelled `<n>:<class name>`, n = the index of the transformer object in whose chain the link
+    OBJECT was seen first (0: the root): an operation method makes exactly one new link, apply(Transformer)
+    none -- the derived chain holds the link objects of its origin and of its argument."""
+    from genshi.filters.transform import SelectTransformation
     rec = {}
-    RecPath = rec_path_class(rec)
+    cur = [None]
+    RecPath = rec_path_class(rec, cur)
     bufs = {}
     chains = G.tree_chains(case)
     nodes = [apply_op(None, 0, chains[0][0], bufs, RecPath)]
+    labels, keep = {}, []
+
+    def label(link, n):
+        if id(link) not in labels:
+            labels[id(link)] = '%d:%s' % (n, type(link).__name__)
+            keep.append(link)                 # keeps id() unique
+        return labels[id(link)]
+
+    for l in nodes[0].transforms:
+        label(l, 0)
     history = []
     for k, (parent, op) in enumerate(case['derive']):
-        nodes.append(apply_op(nodes[parent], len(chains[parent]), op, bufs, RecPath))
-        history.append([[type(l).__name__ for l in t.transforms] for t in nodes])
+        if op[0] == 'cat':
+            nodes.append(nodes[parent].apply(nodes[op[1]]))
+        else:
+            nodes.append(apply_op(nodes[parent], len(chains[parent]), op, bufs, RecPath))
+        history.append([[label(l, k + 1) for l in t.transforms] for t in nodes])
     runs = []
     for k in case['apply']:
         for i, b in bufs.items():
@@ -260,7 +372,17 @@ def run_tree(case):
             log.seek(0)
             log.truncate()
         rec.clear()
-        real = run_transformer(case['doc'], nodes[k], bufs, rec)
+        # for this run every select link of the object's chain is stood for by a pass-through that tells
+        # RecPath its position in THIS chain (in place: the object and its list stay the ones under test)
+        t = nodes[k]
+        saved = t.transforms[:]
+        t.transforms[:] = [PosLink(l, i, cur) if isinstance(l, SelectTransformation) else l
+                           for i, l in enumerate(saved)]
+        cur[0] = None
+        try:
+            real = run_transformer(case['doc'], t, bufs, rec)
+        finally:
+            t.transforms[:] = saved
         real['rec'] = dict((i, list(v) if isinstance(v, list) else v) for i, v in rec.items())
         real['bufs'] = dict((i, b) for i, b in real['bufs'].items() if any(o[0] in ('copy', 'cut') and o[1] == i
                                                                           for o in chains[k]))
@@ -282,7 +404,8 @@ def oracle_tree(case, tree=None):
     for the object as it is (a transformer that only selects is the identity, ...)"""
     history, runs = tree if tree is not None else run_tree(case)
     for k, ops, real in runs:
-        fresh = run_real(case['doc'], ops)
+        # (the fresh chain is given its paths as strings, the objects of the tree as Path instances)
+        fresh = run_real(case['doc'], ops, plain=True)
         if not same_outcome(real, fresh):
             what = 'a transformer that only selects is the identity' if len(ops) == 1 else \
                 'a transformer changes only what its own operations select'
@@ -340,7 +463,15 @@ def oracle_chain(case, real=None):
         if adm:
             return fail(case, 'the transformer maps a well-nested stream to a stream (no exception)', 'a stream', real['err'])
         return None
-    out = unmark(real['marked'])
+    out = real.get('plain')
+    if out is None:
+        out = unmark(real['marked'])
+    elif isinstance(out, str):
+        # the second run of the same object (called without keep_marks) failed, the first did not
+        if not adm:
+            return None
+        return fail(case, 'the transformer maps a well-nested stream to a stream (no exception), every time it is applied',
+                    _short(unmark(real['marked'])), out)
     if adm and not G.nested_ok(out):
         return fail(case, 'chain output is well nested', 'well nested', _short(out))
     names = [o[0] for o in ops]
@@ -356,7 +487,7 @@ def oracle_chain(case, real=None):
             [n for n in real['trace'] if n] != [len(real['marked'])][:len(real['marked'])]:
         return fail(case, 'trace prints one line per item it passes on', [len(real['marked'])], real.get('trace'))
     if len(ops) == 2 and names[0] == 'select' and names[1] not in ('select', 'invert', 'end', 'buffer', 'map',
-                                                                      'substitute', 'filter'):
+                                                                      'substitute', 'filter', 'apply'):
         if 'text' in ops[0][1] or not G.plain_doc(doc):
             # a path of the shared grammar, or a document with namespace / DOCTYPE / CDATA events: XPath
             # semantics is C05/C17's; the selection is what the transformer that ONLY selects marks (a
@@ -632,7 +763,11 @@ def oracle_other(case):
         else:
             flat.append(e)
     if f == 'nsflat':
-        # the flattener rewrites names to prefixed strings; compare shapes only
+        # the flattener rewrites names to prefixed strings: the string written for an END must be the string
+        # written for its START (theorem ns_flattener_wellnested) ...
+        if not G.nested_ok(flat):
+            return fail(case, 'filter nsflat keeps the stream well nested', 'well nested (flattened names)', _short(out))
+        # ... and the shapes must nest
         flat = [[e[0], ['', '']] + e[2:] if e[0] in ('S', 'E') else e for e in flat]
         st = 0
         for e in flat:
@@ -731,7 +866,7 @@ def valid_path(p):
         return False
 
 
-ARITY = {'trace': 1, 'maptext': 2, 'wrapel': 4, 'attrfn': 3, 'select': 2, 'remove': 1, 'unwrap': 1, 'empty': 1, 'invert': 1, 'end': 1, 'buffer': 1, 'wrap': 3,
+ARITY = {'apply': 2, 'trace': 1, 'maptext': 2, 'wrapel': 4, 'attrfn': 3, 'select': 2, 'remove': 1, 'unwrap': 1, 'empty': 1, 'invert': 1, 'end': 1, 'buffer': 1, 'wrap': 3,
          'replace': 2, 'before': 2, 'after': 2, 'prepend': 2, 'append': 2, 'rename': 2, 'attr': 3, 'copy': 3,
          'cut': 3, 'map': 2, 'substitute': 4, 'filter': 2}
 
@@ -753,7 +888,12 @@ def valid_case(case):
                     return False
                 if op[0] in INJ:
                     c = op[1]
-                    if c[0] == 's':
+                    if c[0] == 'fn' and len(c) == 2 and c[1][0] in ('s', 'ev'):
+                        c = c[1]
+                    if c[0] == 'el':
+                        if not (len(c) == 3 and isinstance(c[1], str) and c[1].isalnum() and valid_forest(c[2])):
+                            return False
+                    elif c[0] == 's':
                         if not isinstance(c[1], str):
                             return False
                     elif c[0] == 'ev':
@@ -771,7 +911,10 @@ def valid_case(case):
                                               all(isinstance(x, list) and len(x) == 2 and x[0].isalnum() for x in op[2])):
                     return False
                 if op[0] == 'attrfn' and not (isinstance(op[1], str) and op[1].isalnum() and
-                                              isinstance(op[2], str) and op[2].isalnum()):
+                                              (isinstance(op[2], str) and op[2].isalnum() or
+                                               op[2] in (['tag'], ['name'], ['count']) or
+                                               isinstance(op[2], list) and len(op[2]) == 2 and op[2][0] == 'const'
+                                               and isinstance(op[2][1], str))):
                     return False
                 if op[0] == 'rename' and not (isinstance(op[1], str) and op[1].isalnum()):
                     return False
@@ -781,6 +924,8 @@ def valid_case(case):
                 if op[0] in ('copy', 'cut') and not (isinstance(op[1], int) and isinstance(op[2], bool)):
                     return False
                 if op[0] == 'maptext' and op[1] not in MAPTEXT:
+                    return False
+                if op[0] == 'apply' and op[1] not in USERFN:
                     return False
                 if op[0] == 'substitute' and not (isinstance(op[1], str) and op[1].isalnum() and
                                                   isinstance(op[2], str) and '\\' not in op[2] and isinstance(op[3], int)):
@@ -800,7 +945,11 @@ def valid_case(case):
             for d in case['derive']:
                 if len(d) != 2 or not isinstance(d[0], int) or not 0 <= d[0] < n:
                     return False
+                if d[1][0] == 'cat' and not (len(d[1]) == 2 and isinstance(d[1][1], int) and 0 <= d[1][1] < n):
+                    return False
                 n += 1
+            if any(len(ops) > G.TREE_MAXLEN for ops in G.tree_chains(case)):
+                return False
             if not all(isinstance(a, int) and 0 <= a < n for a in case['apply']) or not case['apply']:
                 return False
             return all(valid_case({'kind': 'chain', 'doc': case['doc'], 'ops': ops}) and
@@ -947,6 +1096,10 @@ def w_content(c):
         return [Atom('STR'), c[1]]
     if c[0] == 'ev':
         return [Atom('ev'), [w_event(e) for e in G.flatten(c[1])]]
+    if c[0] == 'fn':
+        return w_content(c[1])        # a callable returning the same content at every call: that content
+    if c[0] == 'el':
+        return [Atom('ev'), [w_event(e) for e in G.content_events(c)]]     # a builder Element: its events
     return [Atom('buf'), c[1]]
 
 
@@ -965,7 +1118,13 @@ def w_op(i, op, rec):
     if n == 'wrapel':
         return [Atom('wrapel'), ['', op[1]], [[['', k], v] for k, v in op[2]], [w_event(e) for e in G.flatten(op[3])]]
     if n == 'attrfn':
-        return [Atom('attrfn'), ['', op[1]], op[2]]
+        if isinstance(op[2], str):
+            return [Atom('attrfn'), ['', op[1]], op[2]]
+        if op[2][0] == 'const':
+            return [Atom('attrfn'), ['', op[1]], [Atom('const'), op[2][1]]]
+        if op[2][0] == 'name':
+            return [Atom('attrfn'), ['', op[1]], [Atom('const'), op[1]]]       # value(name, event) = name
+        return [Atom('attrfn'), ['', op[1]], [Atom(op[2][0])]]
     if n in INJ:
         return [Atom(n), w_content(op[1])]
     if n == 'attr':
@@ -976,6 +1135,8 @@ def w_op(i, op, rec):
         return [Atom(n), op[1], B(op[2])]
     if n == 'map':
         return [Atom('map'), B(op[1] == 'N')]
+    if n == 'apply':
+        return [Atom('map'), B(False)]          # the user-written generator `_user_bang` does what map(_bang, TEXT) does
     if n == 'substitute':
         return [Atom('SUBST'), op[1], op[2], op[3]]
     if n == 'filter':
@@ -996,7 +1157,7 @@ def chain_real_answer(real):
     # results that function can return) must hold on the real code
     # ... and, for chains the stage-wise model answers, the lazy model must give the same
     return ['ok', [[m, e] for m, e in real['marked']], [[i, b] for i, b in sorted(real['bufs'].items())],
-            unmark(real['marked']), True, True]
+            real['plain'] if real.get('plain') is not None else unmark(real['marked']), True, True]
 
 
 def chain_model_answer(ans):
@@ -1008,13 +1169,22 @@ def chain_model_answer(ans):
         return 'err' if v[1] == 'T' else 'err (stage-wise) but the lazy model answers a stream'
     marked = [[None if m == 'N' else str(m), u_event(e)] for m, e in v[1]]
     bufs = [[int(i), [u_event(e) for e in b]] for i, b in v[2]]
-    # v[5]: 'lazy' = answered by the lazy model (the interleaving is observable), else: both models agree
-    return ['ok', marked, bufs, [u_event(e) for e in v[3]], v[4] == 'T', v[5] in ('T', 'lazy')]
+    # v[5]: 'lazy' = answered by the lazy model (the interleaving is observable), else: both models agree;
+    # 'lazy+trace' = ... and reads come after writes (`lazyRaw`): the link-by-link trace semantics gives the
+    # same (theorem `lazy_trace`); for stage-wise chains the flag 'T' includes lazy = trace
+    return ['ok', marked, bufs, [u_event(e) for e in v[3]], v[4] == 'T', v[5] in ('T', 'lazy', 'lazy+trace')]
 
 
 def derive_line(case):
-    return proto.line(Atom('C20'), Atom('derive'), Atom(OPCLASS['select']),
-                      [[p, Atom(OPCLASS[op[0]])] for p, op in case['derive']])
+    """links are named by the derivation that made them (see run_tree); histories without
+    apply(Transformer) go to `derive` (model `history`), mixed ones to `derive2` (`historyD`)"""
+    root = '0:' + OPCLASS['select']
+    if not any(op[0] == 'cat' for _, op in case['derive']):
+        return proto.line(Atom('C20'), Atom('derive'), root,
+                          [[p, '%d:%s' % (k + 1, OPCLASS[op[0]])] for k, (p, op) in enumerate(case['derive'])])
+    return proto.line(Atom('C20'), Atom('derive2'), root,
+                      [[Atom('cat'), p, op[1]] if op[0] == 'cat' else [Atom('one'), p, '%d:%s' % (k + 1, OPCLASS[op[0]])]
+                       for k, (p, op) in enumerate(case['derive'])])
 
 
 def derive_model_answer(ans):
@@ -1068,6 +1238,8 @@ def compare(items, res):
             res.count('chain-model:' + ('lazy' if lazy else 'stage-wise+lazy'))
             if lazy:
                 stream = stream + '-lazy'
+                if 'lazy+trace' in ans:
+                    res.count('chain-model:lazy+trace')
         if model == 'outside' and case.get('kind') == 'formx':
             # the documentation semantics claims nothing outside `okForest` (the recorded findings);
             # for kind `form` (inside the hypotheses of the oracle) `outside` is a disagreement
@@ -1122,6 +1294,33 @@ def in_theorem_class(ops):
     return True
 
 
+def in_lazy_theorem_class(ops):
+    """mirror of `Admissible true ops`, `OneWriter [] ops` and `lazyRaw ops` (Lemmas/TfChains.lean, TfTraceInv.lean,
+    Model/TfTrace.lean): the chains covered by lazy_raw_chain_wellnested -- operations admitted on the marking as
+    in `Admissible`; between two buffer() barriers one writer per buffer, and no buffer written by a link that
+    (or a link before which) reads it"""
+    good = True
+    w, r = set(), set()
+    for op in ops:
+        n = op[0]
+        if n == 'buffer':
+            w, r = set(), set()
+            continue
+        if not good and n in DIRTY_EXCLUDED:
+            return False
+        if n in ('copy', 'cut'):
+            if op[1] in w or op[1] in r:
+                return False
+            w.add(op[1])
+        elif n in G.INJECT and op[1][0] == 'buf':
+            r.add(op[1][1])
+        if n in ('select', 'end'):
+            good = True
+        elif n == 'invert':
+            good = False
+    return True
+
+
 def chain_key(case, real):
     """distinct non-trivial chain: (operation names, path strings, marks that occur)"""
     marks = sorted(set(m for m, _ in real['marked'] if m))
@@ -1154,12 +1353,22 @@ def process(cases, res):
                 res.count('chain-len:%d' % (len(c['ops']) - 1))
                 for o in c['ops']:
                     res.count('op:' + o[0])
+                    if o[0] in INJ:
+                        res.count('inj-content:' + ('callable->' + o[1][1][0] if o[1][0] == 'fn' else o[1][0]))
+                    elif o[0] == 'attrfn':
+                        res.count('attrfn:' + ('copy-attr' if isinstance(o[2], str) else o[2][0]))
                 res.count('chain-status:' + real['status'] + (':' + real['err'] if real['err'] else ''))
+                if real['status'] == 'ok':
+                    res.count('unmarked-output-by:' + ('Transformer.__call__(stream)' if real.get('plain-by') else
+                                                       '_unmark(marked output)'))
                 hits = [sum(1 for _, r in v if r is True or r) for k_, v in sorted((k2, v2) for k2, v2 in real['rec'].items() if isinstance(k2, int))]
                 if any(isinstance(k2, tuple) and k2[0] == 'raised' for k2 in real['rec']):
                     res.count('chain:path-test-raised')
                 res.count('first-select:' + ('matches' if hits and hits[0] else 'empty'))
                 res.count('chain:' + ('in' if in_theorem_class(c['ops']) else 'outside') + '-chain_wellnested')
+                if not G.stagewise(c['ops']):
+                    res.count('chain-lazy:' + ('in' if in_lazy_theorem_class(c['ops']) else 'outside') +
+                              '-lazy_raw_chain_wellnested')
                 res.count('path:' + ('shared-grammar' if 'text' in c['ops'][0][1] else 'ast'))
                 for ft in sorted(G.doc_features(c['doc'])) or ['plain']:
                     res.count('doc:' + ft)
@@ -1178,8 +1387,20 @@ def process(cases, res):
                 res.count('tree-shape:' + G.tree_shape(c))
                 res.count('tree-size:%d' % (len(c['derive']) + 1))
                 res.count('tree-branching:' + ('yes' if len(set(p for p, _ in c['derive'])) < len(c['derive']) else 'no'))
+                cats = [(p, op[1]) for p, op in c['derive'] if op[0] == 'cat']
+                catnodes = set(i + 1 for i, (_, op) in enumerate(c['derive']) if op[0] == 'cat')
+                res.count('tree:cat-steps', len(cats))
+                res.count('tree:one-steps', len(c['derive']) - len(cats))
+                res.count('tree:with-cat' if cats else 'tree:without-cat')
+                for p, j in cats:
+                    res.count('tree-cat:' + ('self' if p == j else 'argument-is-a-cat-object' if j in catnodes else
+                                             'origin-is-a-cat-object' if p in catnodes else 'plain'))
                 seen = set()
                 for k, ops, real in runs:
+                    if k in catnodes:
+                        res.count('tree-apply:cat-object')
+                        res.count('tree-cat-chain-len:%d' % len(ops))
+                        res.count('tree-cat-selects-in-chain:%d' % sum(1 for o in ops if o[0] == 'select'))
                     res.count('tree-apply:' + ('again' if k in seen else 'first') + (':origin' if k == 0 else ''))
                     seen.add(k)
                     if real['status'] == 'ok' and unmark(real['marked']) != G.flatten(c['doc']):
